@@ -164,17 +164,39 @@ existing `n`), `n[0]` (fresh), `n[len]`, or — below a list — `[new()]`/`[len
 names, `n[new()]`, `n[0]`; every element-creating step is last or followed by a name.  Then
 `d[path] = v` yields exactly `createIn`.
 
-Proved above: `steps` = names only (`C03_create_names`), and `steps` = one named element-creating
-step followed by names only (`C03_append_new`, `C03_new_on_fresh`, `C03_len_appends`).  Not proved:
-an element-creating step after names, several element-creating steps, bare `[new()]`/`[len]` below a
-list that is itself a list element (there the statement is false when the enclosing list is a plain
-`list`: `C03_new_in_plain_list_cex`, known finding C03-c). -/
+Proved: everything except a bare `[new()]`/`[len]` first step (`C03_create_partial`).  For that
+remaining shape the statement is false when the list is an element of a plain `list`
+(`C03_new_in_plain_list_cex`, known finding C03-c); for a list held by a key the path text is the
+same as `name[new()]`/`name[len]` from the parent dict, which `C03_create_partial` covers. -/
 def C03_create_stmt : Prop :=
   ∀ (cls : Cls) (kvs : List (Str × Val)) (q : Pos) (cur cur' : Val) (s : CStep) (steps : List CStep) (v t' : Val),
     PlainPos q → getAt (.dict cls kvs) q = some cur → s.first → (∀ x ∈ steps, x.later) → GOk (s :: steps) →
     createIn cur (s :: steps) v = some cur' → setAt (.dict cls kvs) q cur' = some t' →
     ∃ n, ∀ fuel ≥ n,
       setItem fuel (.dict cls kvs) (slash ++ renderPos q ++ (s :: steps).flatMap renderStep) v = (t', .ok ())
+
+/-- **C03 (honoured grammar, first step below a dict), proved.**  The full statement for every
+creation path whose first step is a name step or a named element-creating step (`cur` is then a
+dict): names become nested dictionaries, every `n[new()]`/`n[0]`/`n[len]` appends exactly one
+element (creating the list, or wrapping a non-list value as first element), in any alternation the
+grammar allows and of any length — the result is exactly `createIn`. -/
+theorem C03_create_partial (cls : Cls) (kvs : List (Str × Val)) (q : Pos) (kcls : Cls) (nkvs : List (Str × Val))
+    (s : CStep) (steps : List CStep) (v cur' t' : Val) (fuel : Nat)
+    (hp : PlainPos q) (hget : getAt (.dict cls kvs) q = some (.dict kcls nkvs))
+    (hfirst : s.first) (hidx : ∀ e, s ≠ .idx e) (hsteps : ∀ x ∈ steps, x.later) (hg : GOk (s :: steps))
+    (hcreate : createIn (.dict kcls nkvs) (s :: steps) v = some cur')
+    (hset : setAt (.dict cls kvs) q cur' = some t') (hf : fuel ≥ 4 * (q.length + 1)) :
+    setItem fuel (.dict cls kvs) (slash ++ renderPos q ++ (s :: steps).flatMap renderStep) v = (t', .ok ()) := by
+  have hs : PlainKey s.nameOf := by
+    cases s with
+    | name n => exact hfirst
+    | elem n e => exact hfirst
+    | idx e => exact absurd rfl (hidx e)
+  exact setItem_create_steps cls kvs q kcls nkvs s steps v cur' t' fuel hp hget hs hidx hsteps hg hcreate hset hf
+
+/-- the reference result always exists once `createIn` is defined (the node at `q` exists) -/
+theorem C03_create_total (t : Val) (q : Pos) (cur cur' : Val) (hget : getAt t q = some cur) :
+    ∃ t', setAt t q cur' = some t' := setAt_isSome q t cur cur' hget
 
 /-- **full statement (read back).**  After a successful `d[xpath] = v` the value reads back
 through the same path with `new()` replaced by `last()`.  (Proved for the shapes above:
@@ -269,6 +291,28 @@ example : (getItem 40 (.dict .n0 [(['a'], .dict .n0 [(['l'], .list .n0 [.int 1, 
     (.dict .n0 [(['a'], .dict .n0 [(['l'], .list .n0 [.int 1, .int 5]), (['k'], .str ['s'])])]) 40 ⟨pk_a, trivial⟩
     (rfl : getAt exTree2 _ = _) pk_l (by simp) (by decide) (by decide)
   exact congrArg Prod.snd this
+
+/-- `d['//a/n/m[new()]/x'] = 5`: names, then an element-creating step, then a name (`C03_create_partial`) -/
+example : setItem 40 exTree2 ['/', '/', 'a', '/', 'n', '/', 'm', '[', 'n', 'e', 'w', '(', ')', ']', '/', 'x'] (.int 5)
+    = (.dict .n0 [(['a'], .dict .n0 [(['l'], .list .n0 [.int 1]), (['k'], .str ['s']),
+        (['n'], .dict .n0 [(['m'], .list .n0 [.dict .n0 [(['x'], .int 5)]])])])], .ok ()) :=
+  C03_create_partial .n0 _ [.key ['a']] .n0 _ (.name ['n']) [.elem ['m'] ['n', 'e', 'w', '(', ')'], .name ['x']] (.int 5) _ _ 40
+    ⟨pk_a, trivial⟩ rfl pk_n (by intro e h; cases h)
+    (by intro x hx; simp at hx; rcases hx with rfl | rfl
+        · exact ⟨pk_m, Or.inl (by decide)⟩
+        · exact pk_x)
+    (by simp [GOk, CStep.isName]) rfl (by decide) (by decide)
+
+/-- `d['//a/k[new()]/x/l[0]'] = 5`: wrap, name, fresh one-element list (`C03_create_partial`) -/
+example : setItem 40 exTree2 ['/', '/', 'a', '/', 'k', '[', 'n', 'e', 'w', '(', ')', ']', '/', 'x', '/', 'l', '[', '0', ']'] (.int 5)
+    = (.dict .n0 [(['a'], .dict .n0 [(['l'], .list .n0 [.int 1]),
+        (['k'], .list .n0 [.str ['s'], .dict .n0 [(['x'], .dict .n0 [(['l'], .list .n0 [.int 5])])]])])], .ok ()) :=
+  C03_create_partial .n0 _ [.key ['a']] .n0 _ (.elem ['k'] ['n', 'e', 'w', '(', ')']) [.name ['x'], .elem ['l'] ['0']] (.int 5) _ _ 40
+    ⟨pk_a, trivial⟩ rfl pk_k (by intro e h; cases h)
+    (by intro x hx; simp at hx; rcases hx with rfl | rfl
+        · exact pk_x
+        · exact ⟨pk_l, Or.inr rfl⟩)
+    (by simp [GOk, CStep.isName]) rfl (by decide) (by decide)
 
 /-- creations the code honours, evaluated directly (relative spellings as a user writes them) -/
 example : setItem 40 exTree ['a', '/', 'n', '/', 'm'] (.int 5)
